@@ -50,10 +50,40 @@ ClearOK(r) == /\ r.op.ok
                  ELSE r.rb.v = <<>>
               /\ RtOK(r)
 
+(***************************************************************************)
+(* A whole repeated / map field assigned from a VIEW of a field of another *)
+(* message (or from list(view) / dict(view)): r.vals (and r.keys for maps) *)
+(* are the elements of the source, judged one by one against the           *)
+(* DESTINATION's kind and domain - the source may be of the same kind but  *)
+(* another enum type, another message type, or a proto2 string that is not *)
+(* UTF-8.  All acceptable: stored exactly in order.  One refused: an error *)
+(* and (repeated field) the destination unchanged.                         *)
+(***************************************************************************)
+MatchSeqK(E, obs, k, syn) == Len(E) = Len(obs) /\ \A j \in 1..Len(E) : Stored(E[j], k, syn, obs[j])
+RtKOK(r) == /\ r.rtbk.ok /\ RtSeq(r.rtbk.v, r.rbk.v)
+            /\ r.rttk.ok /\ RtSeq(r.rttk.v, r.rbk.v)
+ViewOK(r) ==
+  LET jv == [j \in 1..Len(r.vals) |-> Judge(r.kind, r.syn, r.vals[j])]
+      jk == [j \in 1..Len(r.keys) |-> Judge(r.kkind, r.syn, r.keys[j])]
+      ds == {jv[j].d : j \in 1..Len(jv)} \cup {jk[j].d : j \in 1..Len(jk)}
+      stored  == /\ r.op.ok /\ r.rbk.ok
+                 /\ MatchSeqK([j \in 1..Len(jv) |-> jv[j].want], r.rb.v, r.kind, r.syn)
+                 /\ MatchSeqK([j \in 1..Len(jk) |-> jk[j].want], r.rbk.v, r.kkind, r.syn)
+                 /\ RtOK(r) /\ RtKOK(r)
+      refused == /\ ~r.op.ok /\ r.rbk.ok
+                 /\ IF r.shape = "viewlist" THEN SeqVEq(r.rb.v, r.before)
+                    ELSE /\ \A j \in 1..Len(r.rb.v) : WellTyped(r.kind, r.syn, r.rb.v[j])
+                         /\ \A j \in 1..Len(r.rbk.v) : WellTyped(r.kkind, r.syn, r.rbk.v[j])
+                 /\ RtOK(r) /\ RtKOK(r)
+  IN IF "reject" \in ds THEN refused
+     ELSE IF ds \subseteq {"accept"} THEN stored
+     ELSE (IF r.op.ok THEN stored ELSE refused)
+
 Good(r) ==
-  /\ ~r.op.panic            \* never a host panic
+  /\ ~r.op.panic            \* never a host panic (the assignment, or reading / printing / marshalling afterwards)
   /\ r.rb.ok
-  /\ IF r.shape = "lookup" THEN RtOK(r) /\ SeqVEq(r.rb.v, r.before)      \* m.mk[v], v in m.mk: any result or error, no effect
+  /\ IF r.shape \in {"viewlist", "viewmap"} THEN ViewOK(r)
+     ELSE IF r.shape = "lookup" THEN RtOK(r) /\ SeqVEq(r.rb.v, r.before)      \* m.mk[v], v in m.mk: any result or error, no effect
      ELSE IF r.val.t = "none" THEN (IF r.clear = "no" THEN RejectOK(r) ELSE ClearOK(r))
      ELSE LET j == Judge(r.kind, r.syn, r.val) IN
           CASE j.d = "accept" -> AcceptOK(r, j.want)
